@@ -551,14 +551,21 @@ static void generate(Plan &plan, uint64_t seed, int tier) {
     int  width          = (int)plan.cfg["width"] == 8 ? 4 : (int)plan.cfg["width"];
     bool faulted        = cfg.chance(4, 5);
     plan.cfg["faulted"] = faulted;
+    // up to a dozen renders of templates with hundreds of nested tags inside loops: a budget of 10^9 steps is still
+    // orders of magnitude above the costliest of them and ends a real endless loop within seconds
+    plan.cfg["step_budget"] = 1000000000LL;
     bool root_array;
     U32  tmpl;
     gen_values_and_template(plan, cfg, ops, root_array, tmpl, tier, false);
     U32 other;
     {
         TemplateGen tg2(ops, root_array, 4);
-        other = A(tg2.document(2));
+        other = A(tg2.block(2)); // never one of the very deep documents: joined to open loops it multiplies their cost
     }
+    // a very deep document costs ~10^5 steps per traversal and damage can wrap it in a few more loops over the
+    // root: no fixed step count separates that from an endless loop, so past the budget these runs are given up
+    // (abandoned, not reported) and the bounded-work oracle stays with the ordinary documents
+    if (tmpl.size() > 4000) plan.cfg["soft_budget"] = 1;
     size_t renders = 1 + (size_t)cfg.below(3);
     for (size_t k = 0; k < renders; k++) {
         if (faulted) {
@@ -601,6 +608,7 @@ static void generate_conc(Plan &plan, uint64_t seed, int tier) {
     static const int slices[] = {3, 30, 300, 3000};
     plan.cfg["slice"] = slices[cfg.below(4)];
     plan.cfg["pct_d"] = (int64_t)(1 + cfg.below(3));
+    plan.cfg["step_budget"] = 1000000000LL;
     bool root_array;
     U32  tmpl;
     gen_values_and_template(plan, cfg, ops, root_array, tmpl, tier, true);
@@ -649,14 +657,14 @@ static bool execute(Plan &plan) {
                 drive<wchar_t>(plan, cx);
             if (!qsim::run_aborted()) qsim::check_leaks("render");
         },
-        1 << 20);
+        8 << 20); // what a default Linux thread has: rendering recurses once per nesting level of the template
     return cx.renders >= 1 && (cx.faults_fired > 0 || cx.renders >= 3);
 }
 
 template <typename C>
 static bool run_conc(Plan &plan, Ctx &cx) {
     ConcW<C> *w = new ConcW<C>(cx);
-    qsim::run_single([&]() { w->setup(plan); }, 1 << 20);
+    qsim::run_single([&]() { w->setup(plan); }, 8 << 20);
     if (qsim::run_aborted() || cx.failed) return false; // (objects abandoned: the run is over)
     // everything alive now is shared read-only, except each task's own stream
     qsim::mark_shared_ro_all();
@@ -669,7 +677,7 @@ static bool run_conc(Plan &plan, Ctx &cx) {
     for (size_t ti = 0; ti < w->tasks.size(); ti++) {
         qsim::TaskSpec s;
         s.fn          = [w, ti]() { w->task_body(ti); };
-        s.stack_bytes = 512 * 1024;
+        s.stack_bytes = 8 << 20;
         specs.push_back(s);
     }
     qsim::run_tasks(specs, plan);
